@@ -4,6 +4,7 @@ import (
 	"bytes"
 	"errors"
 	"fmt"
+	"go.pennock.tech/tabular/texttable/decoration"
 	"io"
 	"strings"
 	"time"
@@ -236,6 +237,19 @@ func c14Ops() []c14Op {
 		{"auto.Render(t, none)", func(w *c14Wrappers) (string, error) { return auto.Render(w.t, "none") }, false},
 		{"auto.Render(t, html)", func(w *c14Wrappers) (string, error) { return auto.Render(w.t, "html") }, false},
 		{"auto.Render(t, utf8-double)", func(w *c14Wrappers) (string, error) { return auto.Render(w.t, "utf8-double") }, false},
+		{"auto.Render(t, c14fam.left)   // one of two registered names with the same first section and length", func(w *c14Wrappers) (string, error) {
+			c14RegisterSiblings()
+			return auto.Render(w.t, "c14fam.left")
+		}, false},
+	}
+}
+
+// c14RegisterSiblings registers (idempotently) two decorations whose names share the first dot-separated section
+// and have equal length; which one a style string selects must not vary from render to render.
+func c14RegisterSiblings() {
+	if decoration.Named("c14fam.left") == decoration.EmptyDecoration {
+		decoration.RegisterDecorationName("c14fam.left", customFromMask(7|1<<5))
+		decoration.RegisterDecorationName("c14fam.rght", customFromMask(7|1<<6))
 	}
 }
 
